@@ -247,12 +247,12 @@ ADDENDA = {
     'C04': ' Also: a world with a task returning a data object of its own class, and a task whose data class can be created only inside run (inspection may answer or raise, it never runs anything).',
     'C05': ' Values shrink from attempt to attempt (a leftover of an earlier attempt that is not truncated shows); runs ended by KeyboardInterrupt are among the faults.',
     'C06': ' Rewrite leg: every ordered pair of groups of values that compare equal under == (1 / 1.0 / True, arrays equal in bytes but not in dtype or shape) or differ much in length is stored first / recomputed second at ONE storage location and loaded by a later chain.',
-    'C07': ' Also: Chain.force(recompute=True, delete_data=..) in which the run of one forced task fails (all DAGs <= 3 x named sets x failing task x {raise, interrupt}); store states left by a forced recomputation that died before each of its file operations, then force(delete_data=True); MultiChain.force with recompute on shared tasks; names given as str subclasses.',
+    'C07': ' Two force calls in a row on one chain (every ordered pair of named sets of the 3-task DAGs, first call without flags, second with delete_data / recompute / both): the second call is carried out in full. Also: Chain.force(recompute=True, delete_data=..) in which the run of one forced task fails (all DAGs <= 3 x named sets x failing task x {raise, interrupt}); store states left by a forced recomputation that died before each of its file operations, then force(delete_data=True); MultiChain.force with recompute on shared tasks; names given as str subclasses.',
     'C10': ' Concurrent leg: lookups by two threads on one freshly built chain under a cooperative scheduler with SOURCE-LINE scheduling points in chain.py / task.py, every interleaving with <= 1 (quick) / <= 2 (thorough, first plan) preemptions; answers must equal the sequential ones. Second name universe with leading / trailing underscores and digits. Nested-namespace leg: input task names that textually begin with, or equal, the name of the namespace they live in (`n` / `nx`, `numbers`, `n`), each referenced by full name and every shorter form. Known finding K8 (one pipeline mounted twice with equal values).',
     'C15': ' H11: one cache directory opened as a sub-cache of its parent and directly by path. H12: 2-3 threads on one InMemoryCache reaching the same sub-cache by name, source-line scheduling points in cache.py, preemption bound 2 (3).',
     'C17': ' parallel_map over 16 kinds of iterables (arrays and frames with ambiguous or false truth value, lazily sized collections, views, iterators), both implementations, sequential and threaded path.',
     'C18': ' Worlds include a resumable task that fails part-way and is retried, running totals recorded twice by one run (records are what was added, when it was added), runs ended by KeyboardInterrupt.',
-    'C20': ' Worlds include a config with an explicit name= and two parts of one file mounted under two namespaces; the source directory given as target under five spellings must be refused / left untouched.',
+    'C20': ' Directory results holding entries named like the library\'s own temporaries (`*_tmp`, `*_error`, dot files, `*.lock`, top level and nested; every single one and all together) migrate as the same tree byte for byte. Worlds include a config with an explicit name= and two parts of one file mounted under two namespaces; the source directory given as target under five spellings must be refused / left untouched.',
 }
 
 PENDING_REASON = 'check not built yet in this round (planned per DESIGN.md §4; technique applies)'
